@@ -30,6 +30,17 @@ def run_case(case):
     seed, mode = case
     rnd = random.Random(seed ^ 0x5bd1)
     refs, queries, truths = pl.gen_set(seed, weights=[2, 2, 1, 2, 2, 1], n_refs=rnd.choice((2, 3)))
+    # one SHORT molecule (six labels spanning less than 45 kb - far below every other molecule of the set): whatever is decided per data set
+    # (units, scales, thresholds derived from "the" molecules) shows when it is alone in the file
+    rp = refs[0][2]
+    spans = [(rp[i + 5] - rp[i], i) for i in range(len(rp) - 5)]
+    short_id = None
+    if spans and min(spans)[0] < 45000:
+        i = min(spans)[1]
+        short_id = 950
+        queries = queries + [(short_id, rp[i + 5] - rp[i] + 40, [p - rp[i] + 20 for p in rp[i:i + 6]])]
+        truths = dict(truths)
+        truths[short_id] = dict(kind='short', reference=refs[0][0], reverse=False)
     bad = []
     try:
         with time_limit(600):
@@ -51,7 +62,7 @@ def run_case(case):
             sub = sorted(rnd.sample(allq, max(1, len(allq) // 2)))
             same(run_variant(refs, [q for q in queries if q[0] in sub], mode), set(sub), 'record_unchanged_when_other_queries_are_removed')
             # a query ALONE in the file: chimeric ones first (their second pass lands on a reference that, in the full run, other molecules hit too)
-            lone = [q[0] for q in queries if truths[q[0]]['kind'] == 'chimeric'][:2] or [allq[0]]
+            lone = ([q[0] for q in queries if truths[q[0]]['kind'] == 'chimeric'][:2] or [allq[0]]) + ([short_id] if short_id else [])
             for qid in lone:
                 same(run_variant(refs, [q for q in queries if q[0] == qid], mode), {qid}, 'record_unchanged_when_the_query_is_alone_in_the_file')
             shuffled = list(queries)
@@ -119,7 +130,7 @@ def bounded(repo, tier, seed):
             key = f"{RUN}::monitor::C10::{clause}"
             viol.setdefault(key, dict(key=key, blame=RUN, input=dict(seed=case[0], mode=case[1]), observed=detail, required='C10 statement'))
     return result(tot, tot, "generated CMAP sets (2-3 references, 6-10 queries); the per-query records (all files of the mode) of a run on the full files are compared "
-                            "with runs on (a) a random half of the queries and one or two (chimeric) queries alone, (b) shuffled query order, (c) shuffled rows inside both CMAP files, (d) permuted reference "
+                            "with runs on (a) a random half of the queries and one or two (chimeric) queries and one short molecule (six labels, < 45 kb) alone, (b) shuffled query order, (c) shuffled rows inside both CMAP files, (d) permuted reference "
                             "order, (e) -qId/-rId selection versus physically restricted files, (f) a query file of more than 100000 shuffled rows with -qId of three molecules; evaluations = query x variant comparisons",
                   [dict(seed=cases[0][0], mode=cases[0][1])], list(viol.values())[:5], exhaustive=False, bounds=f"{n} sets x 5 variants")
 
